@@ -6,10 +6,15 @@
 //!
 //! Everything runs on the real code. The reload path (`handle_time_ticks` → `do_live_reload`) is
 //! private and wall-clock driven; the `--cfg kanata_verif` hooks let the ReloadDriver below run it
-//! in virtual time: one virtual millisecond = `can_block_update_idle_waiting(1)` (what the loop does
-//! every iteration) + `verif_rewind_last_tick(1.3 ms)` + `verif_handle_time_ticks(&tx)`, and the
-//! returned `ms_elapsed` is checked to be exactly 1. Configurations are real files in a per-case
-//! scratch directory, notifications are read from a real `sync_channel::<ServerMessage>(100)`.
+//! in virtual time: one virtual millisecond = one iteration of the processing loop =
+//! `can_block_update_idle_waiting(1)` + (the input event the iteration receives, if any:
+//! `handle_input_event`) + `verif_rewind_last_tick(1.3 ms)` + `verif_handle_time_ticks(&tx)`, and
+//! the returned `ms_elapsed` is checked to be exactly 1. Key events are delivered in one of two ways
+//! (a dimension of the case): in the loop's own order, so that every key event is an iteration of
+//! its own (what both branches of `start_processing_loop` do: the blocking one rewinds `last_tick` by
+//! 1 ms after `recv`, the polling one has slept 1 ms), or only queued between two iterations (several
+//! events can then reach the layout in the same millisecond). Configurations are real files in a
+//! per-case scratch directory, notifications are read from a real `sync_channel::<ServerMessage>(100)`.
 //!
 //! Oracles (relational):
 //!  * failed reload  : run A (reload key = lrld…) vs twin B (same files, same history, but every
@@ -21,6 +26,18 @@
 //!                     output other than releases until new input; everything up, nothing scrolling
 //!                     or moving at the idle point; from the idle point on identical (tick-relative)
 //!                     to a fresh `Kanata::new` of the new file on the same continuation.
+//!
+//! A case is one reload episode (state before the request, request(s), what happens while the request
+//! is pending, idle point, continuation) or a session of 2-3 episodes on the same running instance:
+//! the continuation of one episode is the typing before the next request, the files stay as they
+//! are, each request selects its file relative to the one that is active by then. Every episode is
+//! judged by all the oracles for a successful reload (the deferral oracle for every request, the
+//! comparison with a fresh instance of the file that episode installed for every continuation), so
+//! anything that one reload leaves behind in the running instance (counters, flags, tables) and that
+//! changes how a later request is handled shows up. Earlier episodes are steered through every way a
+//! reload can be applied: at once, on the release of the last key, by the one-idle-second fallback
+//! (reload key itself / mouse button / wheel / movement / unmod key held for more than a second),
+//! with a key typed while the request is pending.
 //!
 //! What a reload must replace outside the layout (the process-global zippychord state, the sequence
 //! table, the virtual-key name table, the option fields copied in `do_live_reload`) is varied
@@ -70,19 +87,30 @@ struct Rd {
     /// ms_elapsed != 1 was observed (scheduling jitter): the run must be repeated
     jitter: bool,
     err: Option<String>,
-    /// virtual time of the last input event or output
+    /// virtual time of the last input event (start of the iteration that received it, or the
+    /// point between two iterations at which it was queued) or output (start of the iteration that
+    /// produced it)
     last_activity: u64,
+    /// true: a key event is one iteration of the processing loop, in the loop's order
+    /// (`can_block_update_idle_waiting`, `handle_input_event`, `handle_time_ticks` = 1 ms);
+    /// false: a key event is only queued (`handle_input_event`) and the following tick processes it
+    loop_order: bool,
 }
 
 impl Rd {
-    fn new(paths: Vec<PathBuf>) -> Result<Rd, String> {
+    fn new(paths: Vec<PathBuf>, loop_order: bool) -> Result<Rd, String> {
         let sim = Sim::from_paths(paths)?;
         let (tx, rx) = std::sync::mpsc::sync_channel::<ServerMessage>(100);
-        Ok(Rd { sim, tx: Some(tx), rx, notes: vec![], jitter: false, err: None, last_activity: 0 })
+        Ok(Rd { sim, tx: Some(tx), rx, notes: vec![], jitter: false, err: None, last_activity: 0, loop_order })
     }
-    /// one virtual millisecond through the real `handle_time_ticks`
-    fn tick(&mut self) {
+    /// One iteration of the processing loop = one virtual millisecond through the real
+    /// `handle_time_ticks`; `ev` is the input event that the iteration receives, if any.
+    fn iteration(&mut self, ev: Option<&Ev>) {
+        let start = self.sim.now;
         let _ = self.sim.k.can_block_update_idle_waiting(1);
+        if let Some(e) = ev {
+            self.sim.apply(e);
+        }
         self.sim.k.verif_rewind_last_tick(std::time::Duration::from_micros(1300));
         match self.sim.k.verif_handle_time_ticks(&self.tx) {
             Ok(1) => {}
@@ -91,8 +119,11 @@ impl Rd {
         }
         self.sim.now += 1;
         drain_into(&mut self.sim, true);
-        if !self.sim.last().is_empty() {
-            self.last_activity = self.sim.now;
+        if ev.is_some() || !self.sim.last().is_empty() {
+            // (an output is stamped with the start of the iteration that produced it: "one idle
+            // second" is then 1000 whole iterations without input or output, which is what the
+            // unchanged tree needs after an output as well as after an input)
+            self.last_activity = start;
         }
         while let Ok(m) = self.rx.try_recv() {
             let n = match m {
@@ -103,6 +134,13 @@ impl Rd {
             self.notes.push((self.sim.now, n));
         }
     }
+    fn tick(&mut self) {
+        self.iteration(None);
+    }
+    /// does this event take a loop iteration of its own?
+    fn is_iteration_event(&self, e: &Ev) -> bool {
+        self.loop_order && matches!(e, Ev::P(_) | Ev::R(_) | Ev::Rep(_) | Ev::Tap(_))
+    }
     fn apply(&mut self, e: &Ev) {
         match e {
             Ev::T(n) => {
@@ -110,7 +148,10 @@ impl Rd {
                     self.tick();
                 }
             }
+            other if self.is_iteration_event(other) => self.iteration(Some(other)),
             other => {
+                // queued only (virtual keys operated by the TCP server thread are always of this
+                // kind: they arrive between two iterations)
                 self.sim.apply(other);
                 self.last_activity = self.sim.now;
             }
@@ -691,32 +732,77 @@ const SCENARIOS: &[&str] = &[
 ];
 const REQ_KINDS: &[&str] = &["lrld", "lrld-next", "lrld-prev", "lrld-num", "lrld-file"];
 
-struct Plan {
+/// One tap of a reload key.
+#[derive(Clone, Debug)]
+struct Req {
+    /// index into REQ_KINDS
+    kind: usize,
+    /// ticks the reload key is held
+    hold: u32,
+    /// ticks after its release
+    after: u32,
+    /// another key (slot of ACT_KEYS) tapped for 3 ticks after `.0` ticks of the hold
+    mid: Option<(u32, usize)>,
+}
+
+fn req_events(r: &Req) -> Vec<Ev> {
+    let key = osc(RELOAD_KEYS[r.kind]);
+    let mut v = vec![Ev::P(key)];
+    match r.mid {
+        Some((at, slot)) if at + 3 < r.hold => {
+            let x = osc(ACT_KEYS[slot]);
+            v.extend([Ev::T(at), Ev::P(x), Ev::T(3), Ev::R(x), Ev::T(r.hold - at - 3)]);
+        }
+        _ => v.push(Ev::T(r.hold)),
+    }
+    v.push(Ev::R(key));
+    v.push(Ev::T(r.after));
+    v
+}
+
+fn render_req(r: &Req) -> String {
+    let mid = match r.mid {
+        Some((at, slot)) if at + 3 < r.hold => format!(" (key {} tapped for 3 ticks after {at} ticks of the hold)", ACT_KEYS[slot]),
+        _ => String::new(),
+    };
+    format!("tap {} (key {}) held {} ticks{mid}, then {} ticks", REQ_KINDS[r.kind], RELOAD_KEYS[r.kind], r.hold, r.after)
+}
+
+/// One reload episode of a session: state before the request, the request(s), what happens while
+/// the request is pending, and (from the idle point after the reload on) the typing that follows.
+struct Episode {
     scenario: &'static str,
+    pre: Vec<Ev>,
+    reqs: Vec<Req>,
+    /// file index after each request, by the harness' own model of the selection rules
+    idx_after: Vec<usize>,
+    post: Vec<Ev>,
+    cont: Vec<Ev>,
+    cinfo: ContInfo,
+    /// what kind of typing `cont` is ("mixed" = build_cont)
+    typing: &'static str,
+}
+
+struct Plan {
     nfiles: usize,
     /// valid text of every file (what a "valid" content of file i is); file 0's startup text is `old`
     specs: Vec<CfgSpec>,
     old: CfgSpec,
-    /// what is on disk in each file when the request is made
+    /// what is on disk in each file when the first request is made
     contents: Vec<Content>,
     fault_variant: u64,
-    /// reload keys tapped: (index into REQ_KINDS, ticks held, ticks after release)
-    reqs: Vec<(usize, u32, u32)>,
     /// lrld-num argument (1-based) and lrld-file index, fixed per case (part of every config text)
     num_arg: usize,
     file_arg: usize,
-    /// file index after each request, by the harness' own model of the selection rules
-    idx_after: Vec<usize>,
-    pre: Vec<Ev>,
-    post: Vec<Ev>,
-    cont: Vec<Ev>,
+    /// the reload episodes of the case, in order; one, or 2-3 in a session
+    eps: Vec<Episode>,
     success: bool,
     /// which of the old / new files have a zippychord dictionary, a sequence table
     zmode: &'static str,
     smode: &'static str,
-    /// features of the file the requests end on
-    meta: Meta,
-    cinfo: ContInfo,
+    /// key events are delivered in the order of the processing loop (see `Rd::loop_order`)
+    loop_order: bool,
+    session: bool,
 }
 
 fn step_idx(kind: usize, cur: usize, n: usize, num_arg: usize, file_arg: usize) -> usize {
@@ -729,26 +815,61 @@ fn step_idx(kind: usize, cur: usize, n: usize, num_arg: usize, file_arg: usize) 
     }
 }
 
+/// number of single-episode cases; the indices above them are sessions
+fn n_classic(ctx: &Ctx) -> u64 {
+    ctx.tier.sel(2_400, 40_000)
+}
+fn n_sessions(ctx: &Ctx) -> u64 {
+    ctx.tier.sel(640, 9_600)
+}
+
 fn make_plan(ctx: &Ctx, idx: u64) -> Plan {
+    let nc = n_classic(ctx);
+    if idx < nc {
+        return make_plan_inner(ctx, idx, idx as usize, false);
+    }
+    // sessions: scenario x request kind of the first episode cycle with the index, always valid files
+    let j = (idx - nc) as usize;
+    let cyc = SCENARIOS.len() * REQ_KINDS.len();
+    make_plan_inner(ctx, idx, (j / cyc) * 2 * cyc + (j % cyc), true)
+}
+
+fn make_plan_inner(ctx: &Ctx, idx: u64, sys: usize, session: bool) -> Plan {
     let mut rng = Rng::for_case(ctx.seed, "C15", "case", idx);
+    // what was added to the single-episode cases later draws from a stream of its own
+    let mut srng = Rng::for_case(ctx.seed, "C15", "session", idx);
+    let loop_order = if session { srng.chance(3, 4) } else { srng.chance(1, 3) };
     // systematic part: scenario x request kind x outcome cycle with the index, details are random
-    let scenario = SCENARIOS[(idx as usize) % SCENARIOS.len()];
-    let kind0 = ((idx as usize) / SCENARIOS.len()) % REQ_KINDS.len();
-    let success = ((idx as usize) / (SCENARIOS.len() * REQ_KINDS.len())) % 2 == 0;
-    let fault = FAULTS[((idx as usize) / (SCENARIOS.len() * REQ_KINDS.len() * 2)) % FAULTS.len()].clone();
+    let scenario = SCENARIOS[sys % SCENARIOS.len()];
+    let kind0 = (sys / SCENARIOS.len()) % REQ_KINDS.len();
+    let success = (sys / (SCENARIOS.len() * REQ_KINDS.len())) % 2 == 0;
+    let fault = FAULTS[(sys / (SCENARIOS.len() * REQ_KINDS.len() * 2)) % FAULTS.len()].clone();
     let nfiles = if REQ_KINDS[kind0] == "lrld" { 1 + rng.usize(3) } else { 1 + rng.usize(3) };
     let num_arg = 1 + rng.usize(nfiles);
     let file_arg = rng.usize(nfiles);
     let back_to_back = rng.chance(1, 5);
-    let mut reqs = vec![(kind0, 1 + rng.usize(20) as u32, *rng.pick(&[0u32, 1, 3, 10, 40]))];
+    let mut reqs = vec![Req { kind: kind0, hold: 1 + rng.usize(20) as u32, after: *rng.pick(&[0u32, 1, 3, 10, 40]), mid: None }];
     if back_to_back {
         let k2 = if success { rng.usize(REQ_KINDS.len()) } else { kind0 };
-        reqs.push((k2, 1 + rng.usize(10) as u32, *rng.pick(&[0u32, 2, 15])));
+        reqs.push(Req { kind: k2, hold: 1 + rng.usize(10) as u32, after: *rng.pick(&[0u32, 2, 15]), mid: None });
+    }
+    if session {
+        // one request per episode (which of two back-to-back requests wins is not decided by the
+        // statement, and the later episodes have to know which file is active)
+        reqs.truncate(1);
+        if srng.chance(2, 5) {
+            // the reload key itself is held for more than a second: nothing is down in the output,
+            // the held custom action defers the reload until the one-idle-second fallback applies it
+            reqs[0].hold = 1050 + srng.usize(400) as u32;
+            if srng.chance(1, 3) {
+                reqs[0].mid = Some((100 + srng.usize(800) as u32, srng.usize(ACT_KEYS.len())));
+            }
+        }
     }
     let mut idx_after = vec![];
     let mut cur = 0usize;
     for r in &reqs {
-        cur = step_idx(r.0, cur, nfiles, num_arg, file_arg);
+        cur = step_idx(r.kind, cur, nfiles, num_arg, file_arg);
         idx_after.push(cur);
     }
     // configurations
@@ -864,6 +985,16 @@ fn make_plan(ctx: &Ctx, idx: u64) -> Plan {
             }
         }
     }
+    if session {
+        if let Some((_, slot)) = reqs[0].mid {
+            if held.contains(&ACT_KEYS[slot]) {
+                reqs[0].mid = None;
+            }
+        }
+        if srng.chance(1, 4) {
+            wait_before_release = *srng.pick(&[1100u32, 1400]);
+        }
+    }
     let mut specs = vec![];
     for i in 0..nfiles {
         // what a valid reload of file i installs; for file 0 that differs from the startup text
@@ -887,14 +1018,18 @@ fn make_plan(ctx: &Ctx, idx: u64) -> Plan {
         12..=14 => "new-only",
         _ => "both",
     };
-    let pool = zmode != "none" || smode != "none";
+    // (in a session every file types at least three distinct plain letters: the later episodes hold
+    // and type them)
+    let pool = zmode != "none" || smode != "none" || session;
     let mut metas = vec![];
     for (i, sp) in specs.iter_mut().enumerate() {
-        let f = Feat { pool, zippy: matches!(zmode, "new-only" | "both" | "both-same-dict-file"), seq: matches!(smode, "new-only" | "both"), dm: rng.chance(1, 4), mouse: rng.chance(1, 5) };
+        // (no dynamic-macro keys in sessions: a macro recorded under one file would be replayed
+        // under the next one, and recorded macros are kept across reloads on purpose)
+        let f = Feat { pool, zippy: matches!(zmode, "new-only" | "both" | "both-same-dict-file"), seq: matches!(smode, "new-only" | "both"), dm: rng.chance(1, 4) && !session, mouse: rng.chance(1, 5) };
         let dict_file = if zmode == "both-same-dict-file" && i == 0 { "zip-old.txt".to_string() } else { format!("zip-{i}.txt") };
         metas.push(decorate_new(&mut rng, sp, NEW_LETTERS, f, dict_file));
     }
-    let fo = Feat { pool, zippy: matches!(zmode, "old-only" | "both" | "both-same-dict-file"), seq: matches!(smode, "old-only" | "both"), dm: false, mouse: false };
+    let fo = Feat { pool: zmode != "none" || smode != "none", zippy: matches!(zmode, "old-only" | "both" | "both-same-dict-file"), seq: matches!(smode, "old-only" | "both"), dm: false, mouse: false };
     decorate_old(&mut rng, &mut old, &specs[target], &metas[target], fo);
     let mut contents = vec![Content::Valid; nfiles];
     if !success {
@@ -906,7 +1041,17 @@ fn make_plan(ctx: &Ctx, idx: u64) -> Plan {
     // after the request(s): wait, then release what is held
     let mut post = vec![];
     if wait_before_release > 0 {
-        post.push(Ev::T(wait_before_release));
+        let free: Vec<&str> = ACT_KEYS.iter().copied().filter(|k| !held.contains(k)).collect();
+        let surely_pending = matches!(scenario, "key-held" | "mouse-button-held" | "mwheel-held" | "movemouse-held" | "unmod-held-1s" | "key-held-long" | "two-keys-held");
+        if session && surely_pending && wait_before_release >= 1000 && !free.is_empty() && srng.chance(1, 2) {
+            // an input event in the middle of the wait (less than a second after the request,
+            // with something held that defers the reload: it is typed on the old configuration)
+            let at = 100 + srng.usize(800) as u32;
+            let x = osc(*srng.pick(&free[..]));
+            post.extend([Ev::T(at), Ev::P(x), Ev::T(3), Ev::R(x), Ev::T(wait_before_release - at - 3)]);
+        } else {
+            post.push(Ev::T(wait_before_release));
+        }
     }
     let mut hv = held.clone();
     rng.shuffle(&mut hv);
@@ -917,8 +1062,134 @@ fn make_plan(ctx: &Ctx, idx: u64) -> Plan {
             post.push(Ev::T(g));
         }
     }
-    let (cont, cinfo) = build_cont(&mut rng, &metas[target]);
-    Plan { scenario, nfiles, specs, old, contents, fault_variant: rng.below(12), reqs, num_arg, file_arg, idx_after, pre, post, cont, success, zmode, smode, meta: metas[target].clone(), cinfo }
+    let (cont, cinfo) = build_cont(&mut rng, &metas[target], true);
+    let mut eps = vec![Episode { scenario, pre, reqs, idx_after, post, cont, cinfo, typing: "mixed" }];
+    if session {
+        let more = 1 + srng.usize(2);
+        let mut cur = target;
+        for e in 0..more {
+            // what is typed between the previous reload and this request
+            let (typing, cont, cinfo) = between_typing(&mut srng, &metas[cur]);
+            if let Some(prev) = eps.last_mut() {
+                prev.typing = typing;
+                prev.cont = cont;
+                prev.cinfo = cinfo;
+            }
+            let mut ep = later_episode(&mut srng, &metas[cur]);
+            cur = step_idx(ep.reqs[0].kind, cur, nfiles, num_arg, file_arg);
+            ep.idx_after = vec![cur];
+            if e + 1 == more {
+                let (c, ci) = build_cont(&mut srng, &metas[cur], true);
+                ep.cont = c;
+                ep.cinfo = ci;
+                ep.typing = "mixed";
+            }
+            eps.push(ep);
+        }
+    }
+    Plan { nfiles, specs, old, contents, fault_variant: rng.below(12), num_arg, file_arg, eps, success, zmode, smode, loop_order, session }
+}
+
+const LATER_SCENARIOS: &[&str] = &["idle", "plain-key-held", "plain-key-held", "plain-key-held", "two-plain-keys-held", "two-plain-keys-held", "lsft-held", "random-typing", "random-typing"];
+
+/// Typing between two reload episodes, on the file that the earlier one installed.
+fn between_typing(rng: &mut Rng, m: &Meta) -> (&'static str, Vec<Ev>, ContInfo) {
+    match rng.usize(5) {
+        0 => ("none", vec![Ev::T(*rng.pick(&[40u32, 300]))], ContInfo::default()),
+        1 | 2 if !m.plain.is_empty() => {
+            // plain letters only: nothing that kanata has to wait for
+            let mut c = vec![];
+            for _ in 0..2 + rng.usize(6) {
+                let a = osc(ACT_KEYS[*rng.pick(&m.plain)]);
+                c.push(Ev::P(a));
+                c.push(Ev::T(*rng.pick(&[1u32, 5, 30, 80])));
+                let others: Vec<usize> = m.plain.iter().copied().filter(|x| osc(ACT_KEYS[*x]) != a).collect();
+                if !others.is_empty() && rng.chance(1, 3) {
+                    let b = osc(ACT_KEYS[*rng.pick(&others)]);
+                    c.extend([Ev::P(b), Ev::T(*rng.pick(&[2u32, 20])), Ev::R(b), Ev::T(*rng.pick(&[1u32, 10]))]);
+                }
+                c.push(Ev::R(a));
+                c.push(Ev::T(*rng.pick(&[1u32, 10, 100, 400])));
+            }
+            c.push(Ev::T(300));
+            ("plain-keys-only", c, ContInfo::default())
+        }
+        _ => {
+            let (c, ci) = build_cont(rng, m, false);
+            ("mixed", c, ci)
+        }
+    }
+}
+
+/// A later reload episode of a session: the pre-state is made on the file `m` describes (the one
+/// the previous episode installed), with keys whose action is known (its plain letters, its lsft
+/// key) or with random typing that is cut off somewhere.
+fn later_episode(rng: &mut Rng, m: &Meta) -> Episode {
+    let mut scenario = *rng.pick(LATER_SCENARIOS);
+    let code = |slot: usize| osc(ACT_KEYS[slot]);
+    let mut plain = m.plain.clone();
+    rng.shuffle(&mut plain);
+    let mut pre: Vec<Ev> = vec![];
+    let mut held: Vec<u16> = vec![];
+    match scenario {
+        "plain-key-held" if !plain.is_empty() => {
+            pre.extend([Ev::P(code(plain[0])), Ev::T(*rng.pick(&[3u32, 20, 60]))]);
+            held.push(code(plain[0]));
+        }
+        "two-plain-keys-held" if plain.len() >= 2 => {
+            pre.extend([Ev::P(code(plain[0])), Ev::T(*rng.pick(&[0u32, 7, 40])), Ev::P(code(plain[1])), Ev::T(*rng.pick(&[2u32, 12]))]);
+            held.push(code(plain[0]));
+            held.push(code(plain[1]));
+        }
+        "lsft-held" if m.lsft.is_some() => {
+            let l = code(m.lsft.unwrap_or(0));
+            pre.extend([Ev::P(l), Ev::T(*rng.pick(&[3u32, 30]))]);
+            held.push(l);
+            if !plain.is_empty() && rng.coin() {
+                pre.extend([Ev::P(code(plain[0])), Ev::T(8), Ev::R(code(plain[0])), Ev::T(5)]);
+            }
+        }
+        "random-typing" => {
+            let keys: Vec<u16> = ACT_KEYS.iter().map(|k| osc(k)).collect();
+            let n = 3 + rng.usize(10);
+            let h = crate::gen::hist::consistent(rng, &keys, n, &[0, 1, 5, 20, 60, 199, 201], false);
+            let cut = 1 + rng.usize(h.len());
+            pre = h[..cut].to_vec();
+            held = crate::gen::hist::still_down(&pre).into_iter().collect();
+            held.sort();
+        }
+        _ => scenario = "idle",
+    }
+    let mut req = Req { kind: rng.usize(REQ_KINDS.len()), hold: 1 + rng.usize(20) as u32, after: *rng.pick(&[0u32, 1, 3, 10, 40]), mid: None };
+    let free: Vec<usize> = (0..ACT_KEYS.len()).filter(|s| !held.contains(&code(*s))).collect();
+    if rng.chance(1, 3) {
+        req.hold = 1050 + rng.usize(400) as u32;
+        if !free.is_empty() && rng.chance(1, 3) {
+            req.mid = Some((100 + rng.usize(800) as u32, *rng.pick(&free)));
+        }
+    }
+    let wait = if rng.chance(1, 5) { *rng.pick(&[1100u32, 1400]) } else { *rng.pick(&[0u32, 1, 5, 30, 120]) };
+    let mut post = vec![];
+    if wait > 0 {
+        let surely_pending = matches!(scenario, "plain-key-held" | "two-plain-keys-held" | "lsft-held");
+        if surely_pending && wait >= 1000 && !free.is_empty() && rng.chance(1, 2) {
+            // (typed on the configuration that is being replaced: see make_plan_inner)
+            let at = 100 + rng.usize(800) as u32;
+            let x = code(*rng.pick(&free));
+            post.extend([Ev::T(at), Ev::P(x), Ev::T(3), Ev::R(x), Ev::T(wait - at - 3)]);
+        } else {
+            post.push(Ev::T(wait));
+        }
+    }
+    rng.shuffle(&mut held);
+    for k in held {
+        post.push(Ev::R(k));
+        let g = *rng.pick(&[0u32, 1, 5, 30, 300]);
+        if g > 0 {
+            post.push(Ev::T(g));
+        }
+    }
+    Episode { scenario, pre, reqs: vec![req], idx_after: vec![], post, cont: vec![Ev::T(40)], cinfo: ContInfo::default(), typing: "none" }
 }
 
 /// What the continuation contains besides random typing (for the evidence counters).
@@ -941,7 +1212,7 @@ struct ContInfo {
 /// reach the features of the file the requests end on (chords pressed together, leader + key
 /// sequence, record / replay of a dynamic macro, virtual keys operated by name as the TCP server
 /// does, mouse-movement keys held together). Everything is released at the end of every piece.
-fn build_cont(rng: &mut Rng, m: &Meta) -> (Vec<Ev>, ContInfo) {
+fn build_cont(rng: &mut Rng, m: &Meta, allow_fk: bool) -> (Vec<Ev>, ContInfo) {
     let keys: Vec<u16> = ACT_KEYS.iter().map(|k| osc(k)).collect();
     let mut info = ContInfo::default();
     let mut c: Vec<Ev> = vec![];
@@ -960,6 +1231,11 @@ fn build_cont(rng: &mut Rng, m: &Meta) -> (Vec<Ev>, ContInfo) {
     let nseg = 2 + rng.usize(4);
     for si in 0..nseg {
         let mut kinds: Vec<&str> = vec!["typing", "typing", "typing", "burst", "fk"];
+        if !allow_fk {
+            // (a virtual key that a toggle leaves pressed stays pressed whatever is typed later:
+            // not wanted before a further reload request)
+            kinds.pop();
+        }
         if !m.chords.is_empty() {
             kinds.extend(["chord", "chord", "chord"]);
         }
@@ -1113,35 +1389,58 @@ fn build_cont(rng: &mut Rng, m: &Meta) -> (Vec<Ev>, ContInfo) {
     (c, info)
 }
 
-struct Obs {
-    trace: Vec<Out>,
-    notes: Vec<(u64, Note)>,
+/// What was observed of one reload episode.
+struct EpObs {
     /// tick of the first request key press
     t_req: u64,
-    /// ticks at which the OS model had keys down, sampled at every ConfigFileReload: (tick, keys down before that tick's outputs were applied?, idle time)
+    /// every ConfigFileReload sent from the start of this episode to the start of the next one
     applied: Vec<AppliedInfo>,
-    /// tick at which the continuation starts (None: never became idle)
+    /// tick at which the typing after the reload starts (None: never became idle)
     t_idle: Option<u64>,
+    /// tick at which that typing ends (= the next episode starts)
+    t_end: u64,
     settle_problem: Option<(String, String)>,
-    requested_at_end: bool,
     /// (only meaningful when keys are stuck at the end) every stuck key is produced by a layout state
     stuck_keys_backed_by_layout: bool,
     /// at the end of the settle phase (idle point, or 6000 ticks) nothing is pressed but the
     /// override bookkeeping still lists keys as overridden
     stale_override_state: bool,
+    /// virtual time at which a key other than a reload key was pressed while the request was
+    /// (expected to be) pending
+    typed_while_pending: Vec<u64>,
+    /// the OS model had a key down when the (first) reload key of the episode was pressed
+    os_key_down_at_request: bool,
+}
+
+struct Obs {
+    trace: Vec<Out>,
+    notes: Vec<(u64, Note)>,
+    /// one per episode that was started
+    eps: Vec<EpObs>,
+    requested_at_end: bool,
+    /// a session was ended before a later request because the typing since the previous reload
+    /// had left something pressed
+    not_quiescent_before_later_request: bool,
 }
 
 #[derive(Clone, Debug)]
 struct AppliedInfo {
     tick: u64,
     file: String,
+    /// keys the OS model has down at the end of the iteration that sent ConfigFileReload
     os_keys_down: Vec<String>,
+    os_btns_down: Vec<String>,
+    /// ms from the last input / output (see `Rd::last_activity`) to the start of the applying
+    /// iteration (0: the reload was applied in the very iteration that received an input event)
     idle_for: u64,
     layer_after: usize,
     layer_name_after: String,
     /// a key sequence that was started under the old configuration is still pending right after
     /// the reload
     seq_pending: bool,
+    /// kanata's own idle-iteration counter right after the reload (evidence only: above 1000 the
+    /// one-idle-second fallback applied it)
+    idle_counter: u16,
 }
 
 struct Jitter;
@@ -1162,6 +1461,42 @@ fn texts(p: &Plan, paths: &Paths, noop: bool) -> (String, Vec<String>) {
     let old = cfg_text(&p.old, &row);
     let new = p.specs.iter().map(|s| cfg_text(s, &row)).collect();
     (old, new)
+}
+
+/// Watches every loop iteration for ConfigFileReload notifications.
+struct Watch {
+    seen_notes: usize,
+    applied: Vec<AppliedInfo>,
+}
+
+impl Watch {
+    fn iteration(&mut self, rd: &mut Rd, ev: Option<&Ev>) {
+        let idle_for = if ev.is_some() { 0 } else { rd.sim.now.saturating_sub(rd.last_activity) };
+        rd.iteration(ev);
+        while self.seen_notes < rd.notes.len() {
+            if let Note::Reload(f) = &rd.notes[self.seen_notes].1 {
+                // keys down after this iteration's outputs = what the reload condition looked at
+                let after: Vec<String> = rd.sim.os.keys_down.iter().cloned().collect();
+                let layer_after = rd.sim.k.layout.b().current_layer();
+                let layer_name_after = rd.sim.k.layer_info.get(layer_after).map(|l| l.name.clone()).unwrap_or_default();
+                let seq_pending = !rd.sim.k.sequence_state.is_inactive();
+                let os_btns_down: Vec<String> = rd.sim.os.btns_down.iter().cloned().collect();
+                self.applied.push(AppliedInfo { tick: rd.sim.now, file: f.clone(), os_keys_down: after, os_btns_down, idle_for, layer_after, layer_name_after, seq_pending, idle_counter: rd.sim.k.ticks_since_idle });
+            }
+            self.seen_notes += 1;
+        }
+    }
+    fn step(&mut self, rd: &mut Rd, e: &Ev) {
+        match e {
+            Ev::T(n) => {
+                for _ in 0..*n {
+                    self.iteration(rd, None);
+                }
+            }
+            other if rd.is_iteration_event(other) => self.iteration(rd, Some(other)),
+            other => rd.apply(other),
+        }
+    }
 }
 
 /// Run the reload history once. `noop` = twin B (reload keys without effect).
@@ -1186,96 +1521,101 @@ fn run_reload(p: &Plan, paths: &Paths, noop: bool) -> Result<Result<Obs, String>
     if !io_ok {
         return Ok(Err("cannot write scratch files".into()));
     }
-    let mut rd = match Rd::new(paths.files.clone()) {
+    let mut rd = match Rd::new(paths.files.clone(), p.loop_order) {
         Ok(r) => r,
         Err(e) => return Ok(Err(format!("old configuration rejected: {e}"))),
     };
     rd.run(&[Ev::T(5)]);
-    rd.run(&p.pre);
-    // the file the first request reloads changes on disk just before the request
-    if write_state(&paths.dir, &paths.files[0], &p.contents[0], &p.specs[0], &new[0], p.fault_variant).is_err() {
-        return Ok(Err("cannot rewrite scratch file".into()));
-    }
-    let t_req = rd.sim.now;
-    let mut applied: Vec<AppliedInfo> = vec![];
-    // from here on every tick is inspected for ConfigFileReload notifications
-    let mut seen_notes = rd.notes.len();
-    let mut step = |rd: &mut Rd, e: &Ev, applied: &mut Vec<AppliedInfo>| {
-        let n = if let Ev::T(n) = e { *n } else { 0 };
-        if n == 0 {
-            rd.apply(e);
-            return;
-        }
-        for _ in 0..n {
-            let keys_before: Vec<String> = rd.sim.os.keys_down.iter().cloned().collect();
-            let idle_for = rd.sim.now.saturating_sub(rd.last_activity);
-            rd.tick();
-            while seen_notes < rd.notes.len() {
-                if let Note::Reload(f) = &rd.notes[seen_notes].1 {
-                    // keys down after this tick's outputs = what the reload condition looked at
-                    let after: Vec<String> = rd.sim.os.keys_down.iter().cloned().collect();
-                    let layer_after = rd.sim.k.layout.b().current_layer();
-                    let layer_name_after = rd.sim.k.layer_info.get(layer_after).map(|l| l.name.clone()).unwrap_or_default();
-                    let _ = keys_before.len();
-                    let seq_pending = !rd.sim.k.sequence_state.is_inactive();
-                    applied.push(AppliedInfo { tick: rd.sim.now, file: f.clone(), os_keys_down: after, idle_for, layer_after, layer_name_after, seq_pending });
-                }
-                seen_notes += 1;
-            }
-        }
-    };
-    for (kind, hold, after) in &p.reqs {
-        let key = osc(RELOAD_KEYS[*kind]);
-        step(&mut rd, &Ev::P(key), &mut applied);
-        step(&mut rd, &Ev::T(*hold), &mut applied);
-        step(&mut rd, &Ev::R(key), &mut applied);
-        step(&mut rd, &Ev::T(*after), &mut applied);
-    }
-    for e in &p.post {
-        step(&mut rd, e, &mut applied);
-    }
-    // settle: reload decided, kanata may block, everything up, quiet for 40 ticks
-    let mut quiet = 0u64;
-    let mut t_idle = None;
-    let t0 = rd.sim.now;
-    while rd.sim.now - t0 < 6000 {
-        let n0 = rd.sim.trace.len();
-        step(&mut rd, &Ev::T(1), &mut applied);
-        if rd.sim.trace.len() > n0 {
-            quiet = 0;
-        } else {
-            quiet += 1;
-        }
-        if quiet >= 40 && !rd.sim.k.verif_live_reload_requested() && rd.sim.is_idle() && rd.sim.k.waiting_for_idle.is_empty() && rd.sim.os.all_up() {
-            t_idle = Some(rd.sim.now);
+    let mut w = Watch { seen_notes: rd.notes.len(), applied: vec![] };
+    let mut eps: Vec<EpObs> = vec![];
+    let mut not_quiescent_before_later_request = false;
+    for (ei, ep) in p.eps.iter().enumerate() {
+        if ei > 0 && !(rd.sim.os.all_up() && !rd.sim.k.verif_live_reload_requested()) {
+            // what was typed since the last reload left something pressed (nothing is physically
+            // held, e.g. a toggled virtual key): a request made now would wait for ever. The
+            // session ends here.
+            not_quiescent_before_later_request = true;
             break;
         }
-    }
-    let stale_override_state = rd.sim.os.all_up() && rd.sim.k.cur_keys.is_empty() && rd.sim.k.override_states.removed_oscs().next().is_some();
-    let mut settle_problem = None;
-    if t_idle.is_none() {
-        let tail: Vec<&Out> = rd.sim.trace.iter().rev().take(6).collect();
-        let what = if tail.iter().any(|o| o.kind == OutKind::Scroll) && quiet < 40 {
-            "scroll"
-        } else if tail.iter().any(|o| o.kind == OutKind::Move) && quiet < 40 {
-            "move"
-        } else if !rd.sim.os.btns_down.is_empty() {
-            "button-down"
-        } else if !rd.sim.os.keys_down.is_empty() {
-            "key-down"
-        } else if rd.sim.k.verif_live_reload_requested() {
-            "reload-still-pending"
-        } else if quiet < 40 {
-            "still-emitting"
-        } else if stale_override_state {
-            "stale-override-state"
+        for e in &ep.pre {
+            w.step(&mut rd, e);
+        }
+        if ei == 0 {
+            // the file the first request reloads changes on disk just before the request (the
+            // files stay as they are for the later episodes of a session)
+            if write_state(&paths.dir, &paths.files[0], &p.contents[0], &p.specs[0], &new[0], p.fault_variant).is_err() {
+                return Ok(Err("cannot rewrite scratch file".into()));
+            }
+        }
+        // (a reload during the typing before the request belongs to the previous episode)
+        if let Some(prev) = eps.last_mut() {
+            prev.applied.append(&mut w.applied);
+        }
+        let t_req = rd.sim.now;
+        let os_key_down_at_request = !rd.sim.os.keys_down.is_empty();
+        let mut typed_while_pending: Vec<u64> = vec![];
+        let act_codes: Vec<u16> = ACT_KEYS.iter().map(|k| osc(k)).collect();
+        let mut pending_phase: Vec<Ev> = vec![];
+        for r in &ep.reqs {
+            pending_phase.extend(req_events(r));
+        }
+        pending_phase.extend(ep.post.iter().cloned());
+        for e in &pending_phase {
+            if matches!(e, Ev::P(c) if act_codes.contains(c)) {
+                typed_while_pending.push(rd.sim.now);
+            }
+            w.step(&mut rd, e);
+        }
+        // settle: reload decided, kanata may block, everything up, quiet for 40 ticks
+        let mut quiet = 0u64;
+        let mut t_idle = None;
+        let t0 = rd.sim.now;
+        while rd.sim.now - t0 < 6000 {
+            let n0 = rd.sim.trace.len();
+            w.step(&mut rd, &Ev::T(1));
+            if rd.sim.trace.len() > n0 {
+                quiet = 0;
+            } else {
+                quiet += 1;
+            }
+            if quiet >= 40 && !rd.sim.k.verif_live_reload_requested() && rd.sim.is_idle() && rd.sim.k.waiting_for_idle.is_empty() && rd.sim.os.all_up() {
+                t_idle = Some(rd.sim.now);
+                break;
+            }
+        }
+        let stale_override_state = rd.sim.os.all_up() && rd.sim.k.cur_keys.is_empty() && rd.sim.k.override_states.removed_oscs().next().is_some();
+        let mut settle_problem = None;
+        if t_idle.is_none() {
+            let tail: Vec<&Out> = rd.sim.trace.iter().rev().take(6).collect();
+            let what = if tail.iter().any(|o| o.kind == OutKind::Scroll) && quiet < 40 {
+                "scroll"
+            } else if tail.iter().any(|o| o.kind == OutKind::Move) && quiet < 40 {
+                "move"
+            } else if !rd.sim.os.btns_down.is_empty() {
+                "button-down"
+            } else if !rd.sim.os.keys_down.is_empty() {
+                "key-down"
+            } else if rd.sim.k.verif_live_reload_requested() {
+                "reload-still-pending"
+            } else if quiet < 40 {
+                "still-emitting"
+            } else if stale_override_state {
+                "stale-override-state"
+            } else {
+                "not-idle"
+            };
+            settle_problem = Some((what.to_string(), format!("{} | is_idle={} requested={} | last outputs {:?}", rd.sim.os.describe(), rd.sim.is_idle(), rd.sim.k.verif_live_reload_requested(), tail.iter().rev().map(|o| o.short()).collect::<Vec<_>>())));
         } else {
-            "not-idle"
-        };
-        settle_problem = Some((what.to_string(), format!("{} | is_idle={} requested={} | last outputs {:?}", rd.sim.os.describe(), rd.sim.is_idle(), rd.sim.k.verif_live_reload_requested(), tail.iter().rev().map(|o| o.short()).collect::<Vec<_>>())));
-    } else {
-        for e in &p.cont {
-            step(&mut rd, e, &mut applied);
+            for e in &ep.cont {
+                w.step(&mut rd, e);
+            }
+        }
+        let backed: Vec<String> = rd.sim.k.layout.b().keycodes().map(|k| format!("{k:?}")).collect();
+        let stuck_keys_backed_by_layout = rd.sim.os.keys_down.iter().all(|k| backed.contains(k));
+        eps.push(EpObs { t_req, applied: std::mem::take(&mut w.applied), t_idle, t_end: rd.sim.now, settle_problem, stuck_keys_backed_by_layout, stale_override_state, typed_while_pending, os_key_down_at_request });
+        if t_idle.is_none() {
+            // the session ends here
+            break;
         }
     }
     if rd.jitter {
@@ -1285,30 +1625,28 @@ fn run_reload(p: &Plan, paths: &Paths, noop: bool) -> Result<Result<Obs, String>
         return Ok(Err(format!("handle_time_ticks returned Err: {e}")));
     }
     let requested_at_end = rd.sim.k.verif_live_reload_requested();
-    let backed: Vec<String> = rd.sim.k.layout.b().keycodes().map(|k| format!("{k:?}")).collect();
-    let stuck_keys_backed_by_layout = rd.sim.os.keys_down.iter().all(|k| backed.contains(k));
-    Ok(Ok(Obs { trace: std::mem::take(&mut rd.sim.trace), notes: rd.notes, t_req, applied, t_idle, settle_problem, requested_at_end, stuck_keys_backed_by_layout, stale_override_state }))
+    Ok(Ok(Obs { trace: std::mem::take(&mut rd.sim.trace), notes: rd.notes, eps, requested_at_end, not_quiescent_before_later_request }))
 }
 
-/// Fresh instance of `file` (Kanata::new, as at start-up) running the continuation.
-fn run_fresh(p: &Plan, file: &Path) -> Result<Result<(Vec<Out>, Vec<(u64, Note)>, u64), String>, Jitter> {
-    let mut rd = match Rd::new(vec![file.to_path_buf()]) {
+/// Fresh instance of `file` (Kanata::new, as at start-up) running the continuation `cont`.
+fn run_fresh(p: &Plan, file: &Path, cont: &[Ev]) -> Result<Result<(Vec<Out>, Vec<(u64, Note)>, u64), String>, Jitter> {
+    let mut rd = match Rd::new(vec![file.to_path_buf()], p.loop_order) {
         Ok(r) => r,
         Err(e) => return Ok(Err(format!("fresh instance rejected the new file: {e}"))),
     };
     rd.run(&[Ev::T(50)]);
     let t0 = rd.sim.now;
-    rd.run(&p.cont);
+    rd.run(cont);
     if rd.jitter {
         return Err(Jitter);
     }
     Ok(Ok((std::mem::take(&mut rd.sim.trace), rd.notes, t0)))
 }
 
-fn rel(trace: &[Out], t0: u64) -> Vec<Out> {
+fn rel(trace: &[Out], t0: u64, t1: u64) -> Vec<Out> {
     trace
         .iter()
-        .filter(|o| o.at > t0 || (o.at == t0 && !o.in_tick))
+        .filter(|o| o.at <= t1 && (o.at > t0 || (o.at == t0 && !o.in_tick)))
         .map(|o| {
             let mut o = o.clone();
             o.at -= t0;
@@ -1317,8 +1655,8 @@ fn rel(trace: &[Out], t0: u64) -> Vec<Out> {
         .collect()
 }
 
-fn rel_notes(n: &[(u64, Note)], t0: u64) -> Vec<(u64, Note)> {
-    n.iter().filter(|x| x.0 > t0).map(|x| (x.0 - t0, x.1.clone())).collect()
+fn rel_notes(n: &[(u64, Note)], t0: u64, t1: u64) -> Vec<(u64, Note)> {
+    n.iter().filter(|x| x.0 > t0 && x.0 <= t1).map(|x| (x.0 - t0, x.1.clone())).collect()
 }
 
 fn shorts(t: &[Out]) -> Vec<String> {
@@ -1334,10 +1672,19 @@ fn notes_json(n: &[(u64, Note)]) -> Vec<String> {
     n.iter().map(|(t, x)| format!("{}@{t}", x.short())).collect()
 }
 
+fn episode_hist(ep: &Episode) -> String {
+    let mut rq: Vec<Ev> = vec![];
+    for r in &ep.reqs {
+        rq.extend(req_events(r));
+    }
+    format!("{} | requests: {} | {} | settle | {}", render_hist(&ep.pre), render_hist(&rq), render_hist(&ep.post), render_hist(&ep.cont))
+}
+
 fn describe_plan(p: &Plan, paths: &Paths) -> Value {
     let (old, new) = texts(p, paths, false);
+    let e0 = &p.eps[0];
     json!({
-        "scenario": p.scenario,
+        "scenario": e0.scenario,
         "files": p.nfiles,
         "old_config_f0": old,
         "valid_text_of_each_file": new,
@@ -1346,11 +1693,22 @@ fn describe_plan(p: &Plan, paths: &Paths) -> Value {
         "zippy_dictionary_of_each_file": p.specs.iter().map(|s| s.zippy.as_ref().map(|z| format!("{}: {}", z.file, dict_text(z)))).collect::<Vec<_>>(),
         "zippy_in_old_and_new": p.zmode,
         "sequences_in_old_and_new": p.smode,
-        "pre_history": render_hist(&p.pre),
-        "requests": p.reqs.iter().map(|(k, h, a)| format!("tap {} (key {}) held {h} ticks, then {a} ticks", REQ_KINDS[*k], RELOAD_KEYS[*k])).collect::<Vec<_>>(),
-        "file_index_after_each_request": p.idx_after,
-        "after_request": render_hist(&p.post),
-        "continuation": render_hist(&p.cont),
+        "key_events_delivered": if p.loop_order { "in the order of the processing loop: can_block_update_idle_waiting, handle_input_event, handle_time_ticks (every key event takes one tick)" } else { "queued between two ticks (handle_input_event only)" },
+        "pre_history": render_hist(&e0.pre),
+        "requests": e0.reqs.iter().map(render_req).collect::<Vec<_>>(),
+        "file_index_after_each_request": e0.idx_after,
+        "after_request": render_hist(&e0.post),
+        "continuation": render_hist(&e0.cont),
+        "later_episodes_of_the_session": p.eps.iter().skip(1).map(|ep| json!({
+            "scenario": ep.scenario,
+            "pre_history": render_hist(&ep.pre),
+            "requests": ep.reqs.iter().map(render_req).collect::<Vec<_>>(),
+            "file_index_after_each_request": ep.idx_after,
+            "after_request": render_hist(&ep.post),
+            "continuation": render_hist(&ep.cont),
+            "kind_of_typing_in_continuation": ep.typing,
+        })).collect::<Vec<_>>(),
+        "whole_history": p.eps.iter().map(episode_hist).collect::<Vec<_>>().join(" || next episode: "),
         "expected": if p.success { "reload succeeds" } else { "reload fails" },
     })
 }
@@ -1367,7 +1725,7 @@ fn run_plan(ctx: &Ctx, idx: u64, out: &mut CaseOut) {
         attempts += 1;
         match judge_plan(&p, &paths, out, &desc, ctx.verbose) {
             Ok(()) => break Ok(()),
-            Err(Jitter) if attempts < 5 => {
+            Err(Jitter) if attempts < 8 => {
                 out.inc("jitter_retries");
                 // drop what the aborted attempt recorded
                 out.violations.clear();
@@ -1380,7 +1738,7 @@ fn run_plan(ctx: &Ctx, idx: u64, out: &mut CaseOut) {
     let _ = std::fs::remove_dir(paths.dir.parent().unwrap_or(Path::new("/nonexistent")));
     if res.is_err() {
         out.violations.clear();
-        out.inconclusive = Some("handle_time_ticks did not report exactly 1 ms in five attempts (scheduling jitter)".into());
+        out.inconclusive = Some("handle_time_ticks did not report exactly 1 ms in eight attempts (scheduling jitter)".into());
     }
     if idx % 97 == 3 {
         out.sample = Some(desc);
@@ -1399,30 +1757,37 @@ fn judge_plan(p: &Plan, paths: &Paths, out: &mut CaseOut, desc: &Value, verbose:
         }
     };
     if verbose {
-        eprintln!("A trace: {:?}\nA notes: {:?}\napplied: {:?}\nt_req={} t_idle={:?} settle_problem={:?}", shorts(&a.trace), notes_json(&a.notes), a.applied, a.t_req, a.t_idle, a.settle_problem);
+        eprintln!("A trace: {:?}\nA notes: {:?}", shorts(&a.trace), notes_json(&a.notes));
+        for (i, e) in a.eps.iter().enumerate() {
+            eprintln!("episode {i}: applied: {:?}\nt_req={} t_idle={:?} t_end={} settle_problem={:?}", e.applied, e.t_req, e.t_idle, e.t_end, e.settle_problem);
+        }
     }
-    let witness = |observed: Value, expected: Value| {
-        json!({"case": desc, "config": desc["old_config_f0"], "history": format!("{} | requests | {} | settle | {}", desc["pre_history"].as_str().unwrap_or(""), desc["after_request"].as_str().unwrap_or(""), desc["continuation"].as_str().unwrap_or("")), "observed": observed, "expected": expected})
+    let witness = |observed: Value, expected: Value| json!({"case": desc, "config": desc["old_config_f0"], "history": desc["whole_history"], "observed": observed, "expected": expected});
+    let e0 = &p.eps[0];
+    let Some(a0) = a.eps.first() else {
+        out.inc("cases_not_runnable");
+        return Ok(());
     };
-    let kind_names: Vec<&str> = p.reqs.iter().map(|r| REQ_KINDS[r.0]).collect();
+    let kind_names: Vec<&str> = e0.reqs.iter().map(|r| REQ_KINDS[r.kind]).collect();
     out.inc("cases");
-    out.inc(&format!("scenario:{}", p.scenario));
+    out.inc(&format!("scenario:{}", e0.scenario));
     for k in &kind_names {
         out.inc(&format!("request:{k}"));
     }
-    if p.reqs.len() > 1 {
+    if e0.reqs.len() > 1 {
         out.inc("back_to_back_requests");
     }
     out.inc(&format!("files:{}", p.nfiles));
+    out.inc(if p.loop_order { "cases_with_key_events_in_loop_order" } else { "cases_with_key_events_queued_between_ticks" });
     if !p.success {
         // ---------------------------------------------------------------- failed reload
-        let fault = fault_name(&p.contents[*p.idx_after.last().unwrap()]);
+        let fault = fault_name(&p.contents[*e0.idx_after.last().unwrap_or(&0)]);
         out.inc("failed_reload_cases");
         out.inc(&format!("fault:{fault}"));
         if p.old.zippy.is_some() {
             out.inc("failed_reload_cases_with_defzippy_in_old_config");
         }
-        out.tag(format!("fail|{}|{}|{}|n{}", p.scenario, kind_names.join("+"), fault, p.nfiles));
+        out.tag(format!("fail|{}|{}|{}|n{}", e0.scenario, kind_names.join("+"), fault, p.nfiles));
         if let Some((_, Note::Reload(f))) = a.notes.iter().find(|n| matches!(n.1, Note::Reload(_))) {
             out.violate(
                 format!("failed-reload:notified:{fault}"),
@@ -1442,14 +1807,15 @@ fn judge_plan(p: &Plan, paths: &Paths, out: &mut CaseOut, desc: &Value, verbose:
         };
         out.count("outputs_compared_with_no_request_twin", a.trace.len() as u64);
         if a.requested_at_end {
-            out.violate("failed-reload:request-never-decided", "the reload request is still pending at the end of the history", witness(json!({"settle": format!("{:?}", a.settle_problem)}), json!("request decided once keys are up")));
+            out.violate("failed-reload:request-never-decided", "the reload request is still pending at the end of the history", witness(json!({"settle": format!("{:?}", a0.settle_problem)}), json!("request decided once keys are up")));
         }
+        let b_idle = b.eps.first().map(|e| e.t_idle.is_some()).unwrap_or(false);
         if let Some(d) = first_diff(&a.trace, &b.trace) {
-            let cls = if a.t_idle.is_none() || b.t_idle.is_none() { "never-idle" } else { "outputs" };
+            let cls = if a0.t_idle.is_none() || !b_idle { "never-idle" } else { "outputs" };
             out.violate(
                 format!("failed-reload:differs-from-no-request:{cls}"),
                 format!("after a failed reload ({fault}) the outputs differ from the twin run in which no reload was requested: {d}"),
-                witness(json!({"with_failed_reload": shorts(&a.trace), "notifications": notes_json(&a.notes), "settle": format!("{:?}", a.settle_problem)}), json!({"no_request_twin": shorts(&b.trace), "notifications": notes_json(&b.notes)})),
+                witness(json!({"with_failed_reload": shorts(&a.trace), "notifications": notes_json(&a.notes), "settle": format!("{:?}", a0.settle_problem)}), json!({"no_request_twin": shorts(&b.trace), "notifications": notes_json(&b.notes)})),
             );
         } else if a.notes != b.notes {
             out.violate(
@@ -1458,38 +1824,102 @@ fn judge_plan(p: &Plan, paths: &Paths, out: &mut CaseOut, desc: &Value, verbose:
                 witness(json!({"notifications": notes_json(&a.notes)}), json!({"notifications": notes_json(&b.notes)})),
             );
         }
-        if a.t_idle.is_some() {
+        if a0.t_idle.is_some() {
             out.inc("failed_reload_cases_with_continuation");
         }
         return Ok(());
     }
-    // -------------------------------------------------------------------- successful reload
+    // -------------------------------------------------------------------- successful reload(s)
     out.inc("successful_reload_cases");
-    out.tag(format!("ok|{}|{}|n{}|applied{}", p.scenario, kind_names.join("+"), p.nfiles, a.applied.len().min(3)));
-    let target = *p.idx_after.last().unwrap();
-    let target_path = paths.files[target].to_string_lossy().to_string();
+    if p.session {
+        out.inc("sessions");
+        out.inc(&format!("session_episodes_planned:{}", p.eps.len()));
+        out.tag(format!(
+            "session|{}|{}",
+            p.eps.iter().map(|e| format!("{}+{}{}", e.scenario, REQ_KINDS[e.reqs[0].kind], if e.reqs[0].hold > 1000 { "+held-1s" } else { "" })).collect::<Vec<_>>().join(">"),
+            p.eps.iter().map(|e| e.typing).collect::<Vec<_>>().join(">"),
+        ));
+    } else {
+        out.tag(format!("ok|{}|{}|n{}|applied{}", e0.scenario, kind_names.join("+"), p.nfiles, a0.applied.len().min(3)));
+    }
+    if a.not_quiescent_before_later_request {
+        out.inc("sessions_ended_early:typing_left_something_pressed");
+    }
+    // the file that is active when an episode starts: None = the old configuration
+    let mut active: Option<usize> = None;
+    // how the previous episode's reload was applied and what was typed since (evidence)
+    let mut prev_by_fallback = false;
+    for (ei, eo) in a.eps.iter().enumerate() {
+        let ep = &p.eps[ei];
+        match judge_episode(p, paths, &a, ei, active, prev_by_fallback, out, &witness)? {
+            Some(landed) => active = Some(landed),
+            None => return Ok(()),
+        }
+        prev_by_fallback = eo.applied.last().map(|x| x.idle_counter > 1000).unwrap_or(false) && matches!(ep.typing, "none" | "plain-keys-only");
+    }
+    Ok(())
+}
+
+/// Judge episode `ei` of a successful-reload case. Returns the index of the file that is active
+/// afterwards, or None if the rest of the case cannot be judged.
+#[allow(clippy::too_many_arguments)]
+fn judge_episode(p: &Plan, paths: &Paths, a: &Obs, ei: usize, active: Option<usize>, prev_by_fallback: bool, out: &mut CaseOut, witness: &dyn Fn(Value, Value) -> Value) -> Result<Option<usize>, Jitter> {
+    let ep = &p.eps[ei];
+    let eo = &a.eps[ei];
+    let later = ei > 0;
+    // signatures of later episodes of a session are classes of their own
+    let sg = |base: &str| if later { format!("{base}:later-request-of-session") } else { base.to_string() };
+    let whole = |t: &[Out]| -> Vec<String> { shorts(&t.iter().filter(|o| o.at <= eo.t_end).cloned().collect::<Vec<_>>()) };
+    if later {
+        out.inc("session_later_episodes");
+        out.inc(&format!("session_later_scenario:{}", ep.scenario));
+        out.inc(&format!("session_later_request:{}", REQ_KINDS[ep.reqs[0].kind]));
+        out.inc(&format!("session_typing_before_later_request:{}", p.eps[ei - 1].typing));
+        if eo.os_key_down_at_request {
+            out.inc("session_later_requests_with_output_key_down");
+        }
+        if prev_by_fallback {
+            // the previous reload of the session went through the one-idle-second fallback and
+            // nothing but plain keys was typed since
+            out.inc("session_later_requests_after_fallback_reload_and_plain_typing");
+            if eo.os_key_down_at_request && p.loop_order {
+                out.inc("session_later_requests_with_output_key_down_after_fallback_reload_and_plain_typing_in_loop_order");
+            }
+        }
+    }
+    if ep.reqs.iter().any(|r| r.hold > 1000) {
+        out.inc("requests_with_reload_key_held_over_1s");
+    }
+    let planned_target = *ep.idx_after.last().unwrap_or(&0);
+    let target_path = paths.files[planned_target].to_string_lossy().to_string();
     // (1) it is applied at all, and the last application is the file the requests end on
-    if a.applied.is_empty() {
-        let sig = match &a.settle_problem {
+    if eo.applied.is_empty() {
+        let sig = match &eo.settle_problem {
             Some((w, _)) => format!("not-applied:{w}"),
             None => "not-applied".to_string(),
         };
-        out.violate(sig, "a valid file was requested but no reload was applied within 6000 ticks after every key was released", witness(json!({"trace": shorts(&a.trace), "notifications": notes_json(&a.notes), "settle": format!("{:?}", a.settle_problem)}), json!("ConfigFileReload once no output key is down")));
-        return Ok(());
+        out.violate(sg(&sig), "a valid file was requested but no reload was applied within 6000 ticks after every key was released", witness(json!({"episode": ei, "trace": whole(&a.trace), "notifications": notes_json(&a.notes), "settle": format!("{:?}", eo.settle_problem)}), json!("ConfigFileReload once no output key is down")));
+        return Ok(None);
     }
-    out.count("reloads_applied", a.applied.len() as u64);
-    out.max("deferral_ticks", a.applied[0].tick.saturating_sub(a.t_req));
-    let defer = a.applied[0].tick.saturating_sub(a.t_req);
+    out.count("reloads_applied", eo.applied.len() as u64);
+    let defer = eo.applied[0].tick.saturating_sub(eo.t_req);
+    out.max("deferral_ticks", defer);
     out.inc(match defer {
         0..=1 => "deferral_0_1",
         2..=50 => "deferral_2_50",
         51..=600 => "deferral_51_600",
         _ => "deferral_gt_600",
     });
+    if eo.applied.iter().any(|x| x.idle_counter > 1000) {
+        out.inc("reloads_applied_by_one_idle_second_fallback");
+        if later {
+            out.inc("session_later_reloads_applied_by_one_idle_second_fallback");
+        }
+    }
     // files named by the notifications: a subsequence of the files selected by the requests, ending
     // with the last one
-    let allowed: Vec<String> = p.idx_after.iter().map(|i| paths.files[*i].to_string_lossy().to_string()).collect();
-    let named: Vec<String> = a.applied.iter().map(|x| x.file.clone()).collect();
+    let allowed: Vec<String> = ep.idx_after.iter().map(|i| paths.files[*i].to_string_lossy().to_string()).collect();
+    let named: Vec<String> = eo.applied.iter().map(|x| x.file.clone()).collect();
     let mut ai = 0;
     let mut subseq = true;
     for n in &named {
@@ -1502,39 +1932,60 @@ fn judge_plan(p: &Plan, paths: &Paths, out: &mut CaseOut, desc: &Value, verbose:
         }
         ai += 1;
     }
-    if !subseq || (p.reqs.len() == 1 && named.last() != Some(&target_path)) {
+    if !subseq || (ep.reqs.len() == 1 && (named.last() != Some(&target_path) || named.len() != 1)) {
+        let cls = if subseq && named.last() == Some(&target_path) { "reloaded-more-than-once" } else { "wrong-file-reloaded" };
         out.violate(
-            "wrong-file-reloaded",
-            format!("the ConfigFileReload notifications name {:?}, the requests select {:?}", named.iter().map(|s| s.rsplit('/').next().unwrap_or("")).collect::<Vec<_>>(), p.idx_after),
-            witness(json!({"notifications": notes_json(&a.notes)}), json!({"files_selected_by_requests": allowed})),
+            sg(cls),
+            format!("the ConfigFileReload notifications name {:?}, the requests select {:?} (file {} was active before)", named.iter().map(|s| s.rsplit('/').next().unwrap_or("")).collect::<Vec<_>>(), ep.idx_after, active.map(|x| x.to_string()).unwrap_or_else(|| "0, old text".into())),
+            witness(json!({"episode": ei, "notifications": notes_json(&a.notes)}), json!({"files_selected_by_requests": allowed})),
         );
-        return Ok(());
+        return Ok(None);
     }
     // With two requests the first reload may be applied before the second request key has been
     // processed (it can sit in the input queue behind a pending tap-hold); the restart discards
     // the queue. The statement does not say which of the two must win, so the file that the last
     // notification names is taken as "the new file" from here on.
-    let target = paths.files.iter().position(|x| Some(&x.to_string_lossy().to_string()) == named.last()).unwrap_or(target);
+    let target = paths.files.iter().position(|x| Some(&x.to_string_lossy().to_string()) == named.last()).unwrap_or(planned_target);
     if named.last() != Some(&target_path) {
         out.inc("second_request_lost_to_first_reload");
     }
     // (2) deferral: never with an OS key down unless more than 1000 ms without input/output
-    for ap in &a.applied {
+    for ap in &eo.applied {
         if !ap.os_keys_down.is_empty() {
             out.inc("applied_with_key_down");
             if ap.idle_for <= 1000 {
                 out.violate(
-                    "applied-while-key-down",
+                    sg("applied-while-key-down"),
                     format!("reload applied at tick {} while the OS has {:?} down and only {} ms passed since the last input/output", ap.tick, ap.os_keys_down, ap.idle_for),
-                    witness(json!({"applied": format!("{ap:?}"), "trace": shorts(&a.trace)}), json!("applied only when no output key is down, or after more than 1000 idle ticks")),
+                    witness(json!({"episode": ei, "applied": format!("{ap:?}"), "trace": whole(&a.trace)}), json!("applied only when no output key is down, or after more than 1000 idle ticks")),
                 );
             } else {
                 out.inc("applied_by_1000_tick_fallback");
             }
+        } else if later {
+            out.inc("session_later_reloads_applied_with_no_key_down");
+        }
+    }
+    if later && ep.pre.iter().any(|e| matches!(e, Ev::P(_))) && defer > 1 {
+        out.inc("session_later_reloads_deferred_while_keys_held");
+    }
+    // a key typed while the request was pending (before the first application)
+    let t_first_app = eo.applied[0].tick;
+    let typed_before_app = eo.typed_while_pending.iter().any(|t| *t < t_first_app);
+    // ... and one that was meant to be typed while it was pending but came after the application:
+    // it was typed on the new file, whose state is then no longer that of a fresh instance
+    let typed_after_app = eo.typed_while_pending.iter().any(|t| *t >= t_first_app);
+    if typed_before_app {
+        out.inc("requests_with_key_typed_while_pending");
+        if eo.applied.iter().any(|x| x.idle_counter > 1000) {
+            out.inc("fallback_reloads_with_key_typed_during_the_idle_second");
         }
     }
     // (3) notifications: each ConfigFileReload is immediately followed by LayerChange(first layer)
     for (i, (t, n)) in a.notes.iter().enumerate() {
+        if *t <= eo.t_req || *t > eo.t_end {
+            continue;
+        }
         if let Note::Reload(f) = n {
             let fi = paths.files.iter().position(|x| x.to_string_lossy() == *f);
             let first = fi.map(|fi| p.specs[fi].l0.clone()).unwrap_or_default();
@@ -1546,36 +1997,45 @@ fn judge_plan(p: &Plan, paths: &Paths, out: &mut CaseOut, desc: &Value, verbose:
                     _ => "missing",
                 };
                 out.violate(
-                    format!("layer-change-notification:{cls}"),
+                    sg(&format!("layer-change-notification:{cls}")),
                     format!("ConfigFileReload at tick {t} must be followed by LayerChange({first}); got {:?}", next.map(|x| x.1.short())),
-                    witness(json!({"notifications": notes_json(&a.notes)}), json!(format!("ConfigFileReload({f}) then LayerChange({first}) in the same tick"))),
+                    witness(json!({"episode": ei, "notifications": notes_json(&a.notes)}), json!(format!("ConfigFileReload({f}) then LayerChange({first}) in the same tick"))),
                 );
             }
             out.inc("notification_pairs_checked");
         }
     }
     // (4) first layer active right after each application
-    for ap in &a.applied {
+    for ap in &eo.applied {
         if ap.layer_after != 0 {
-            out.violate("first-layer-not-active", format!("after the reload at tick {} layer {} ({}) is active", ap.tick, ap.layer_after, ap.layer_name_after), witness(json!({"applied": format!("{ap:?}")}), json!("layer 0 active")));
+            out.violate(sg("first-layer-not-active"), format!("after the reload at tick {} layer {} ({}) is active", ap.tick, ap.layer_after, ap.layer_name_after), witness(json!({"episode": ei, "applied": format!("{ap:?}")}), json!("layer 0 active")));
         }
     }
     // (5) after the last application a fresh instance that only sees releases emits nothing:
     // no press / scroll / move / unicode until the continuation starts, and no notification
-    let t_app = a.applied.last().unwrap().tick;
-    let t_end_quiet = a.t_idle.unwrap_or(u64::MAX);
+    let t_app = eo.applied.last().map(|x| x.tick).unwrap_or(0);
+    let t_end_quiet = eo.t_idle.unwrap_or(eo.t_end);
     let late: Vec<&Out> = a.trace.iter().filter(|o| o.at > t_app && o.at <= t_end_quiet && !matches!(o.kind, OutKind::Up | OutKind::BtnUp) && !(o.kind == OutKind::Code && o.name.ends_with("Release"))).collect();
     let late_json: Vec<String> = late.iter().take(12).map(|o| o.short()).collect();
     // (6) idle point: everything up, nothing scrolling / moving
-    let Some(t_idle) = a.t_idle else {
-        let (what, detail) = a.settle_problem.clone().unwrap_or_default();
-        let late_kind = late.first().map(|o| kind_class(&o.kind)).unwrap_or("");
+    let Some(t_idle) = eo.t_idle else {
+        let (what, detail) = eo.settle_problem.clone().unwrap_or_default();
+        // (outputs of a key that was typed on the new file say nothing about what survived)
+        let late_kind = if typed_after_app { "" } else { late.first().map(|o| kind_class(&o.kind)).unwrap_or("") };
         let sig = match (what.as_str(), late_kind) {
             ("scroll", _) | (_, "scroll") => "state-survives-reload:scroll".to_string(),
             ("move", _) | (_, "move") => "state-survives-reload:move".to_string(),
-            ("button-down", _) => "stuck-after-reload:button".to_string(),
+            ("button-down", _) => {
+                // the button was already down when the reload was applied, and the reload was
+                // applied by the one-idle-second fallback (which exists to get rid of stuck state)
+                if eo.applied.last().map(|x| !x.os_btns_down.is_empty() && x.idle_for > 1000).unwrap_or(false) {
+                    "stuck-after-reload:button:held-through-one-idle-second-fallback".to_string()
+                } else {
+                    "stuck-after-reload:button".to_string()
+                }
+            }
             ("key-down", _) => {
-                if a.stuck_keys_backed_by_layout {
+                if eo.stuck_keys_backed_by_layout {
                     "stuck-after-reload:key".to_string()
                 } else {
                     "stuck-after-reload:key-without-layout-state".to_string()
@@ -1584,55 +2044,74 @@ fn judge_plan(p: &Plan, paths: &Paths, out: &mut CaseOut, desc: &Value, verbose:
             (w, _) => format!("never-idle-after-reload:{w}"),
         };
         out.violate(
-            sig,
+            sg(&sig),
             format!("6000 ticks after the reload (applied at tick {t_app}) and the release of every key kanata is not idle with everything released: {what} ({detail}); {} non-release outputs after the reload without new input", late.len()),
-            witness(json!({"trace": shorts(&a.trace), "notifications": notes_json(&a.notes), "settle": detail, "outputs_after_reload_without_input": late_json}), json!("everything released, no continuous output, idle")),
+            witness(json!({"episode": ei, "trace": whole(&a.trace), "notifications": notes_json(&a.notes), "settle": detail, "outputs_after_reload_without_input": late_json}), json!("everything released, no continuous output, idle")),
         );
-        return Ok(());
+        return Ok(None);
     };
     if let Some(o) = late.first() {
-        let seq = if a.applied.iter().any(|x| x.seq_pending) { ":sequence-pending-across-reload" } else { "" };
-        out.violate(
-            format!("output-after-reload:{}{seq}", kind_class(&o.kind)),
-            format!("after the reload was applied at tick {t_app} and without new input kanata emitted {} ({} such outputs); a fresh instance emits nothing", o.short(), late.len()),
-            witness(json!({"trace": shorts(&a.trace), "notifications": notes_json(&a.notes), "outputs_after_reload_without_input": late_json}), json!("only releases after the reload until the next input")),
-        );
+        if !typed_after_app {
+            let seq = if eo.applied.iter().any(|x| x.seq_pending) { ":sequence-pending-across-reload" } else { "" };
+            out.violate(
+                sg(&format!("output-after-reload:{}{seq}", kind_class(&o.kind))),
+                format!("after the reload was applied at tick {t_app} and without new input kanata emitted {} ({} such outputs); a fresh instance emits nothing", o.short(), late.len()),
+                witness(json!({"episode": ei, "trace": whole(&a.trace), "notifications": notes_json(&a.notes), "outputs_after_reload_without_input": late_json}), json!("only releases after the reload until the next input")),
+            );
+        }
     }
     let late_notes: Vec<&(u64, Note)> = a.notes.iter().filter(|n| n.0 > t_app && n.0 <= t_end_quiet).collect();
     if let Some(n) = late_notes.first() {
-        out.violate(
-            "notification-after-reload-without-input",
-            format!("{} at tick {} although nothing was typed since the reload at tick {t_app}", n.1.short(), n.0),
-            witness(json!({"notifications": notes_json(&a.notes)}), json!("no notification between the reload and the next input")),
-        );
+        if !typed_after_app {
+            out.violate(
+                sg("notification-after-reload-without-input"),
+                format!("{} at tick {} although nothing was typed since the reload at tick {t_app}", n.1.short(), n.0),
+                witness(json!({"episode": ei, "notifications": notes_json(&a.notes)}), json!("no notification between the reload and the next input")),
+            );
+        }
     }
     out.inc("reached_idle_point_after_reload");
+    if later {
+        out.inc("session_later_episodes_reached_idle_point");
+    }
+    if typed_after_app {
+        out.inc("episodes_with_key_typed_after_the_application:not_compared_with_fresh_instance");
+        return Ok(Some(target));
+    }
     // (7) from the idle point on: a fresh instance of the new file
-    let f = match run_fresh(p, &paths.files[target])? {
+    let f = match run_fresh(p, &paths.files[target], &ep.cont)? {
         Ok(f) => f,
         Err(e) => {
-            out.violate("fresh-instance-rejects-reloaded-file", e, witness(json!(null), json!(null)));
-            return Ok(());
+            out.violate(sg("fresh-instance-rejects-reloaded-file"), e, witness(json!(null), json!(null)));
+            return Ok(None);
         }
     };
-    let ra = rel(&a.trace, t_idle);
-    let rf = rel(&f.0, f.2);
+    let ra = rel(&a.trace, t_idle, eo.t_end);
+    let rf = rel(&f.0, f.2, u64::MAX);
     out.count("continuation_outputs_compared_with_fresh", rf.len() as u64);
     if !rf.is_empty() {
         out.inc("continuations_with_output");
+        if later {
+            out.inc("session_later_continuations_with_output");
+        }
     }
-    // what differs between the old configuration and the reloaded file outside the layout, and
-    // whether the continuation reached it
+    // what differs between the configuration before the reload and the reloaded file outside the
+    // layout, and whether the continuation reached it
     {
         let tgt = &p.specs[target];
-        let on_planned_target = target == *p.idx_after.last().unwrap();
-        let zo = p.old.zippy.as_ref();
+        let before = match active {
+            None => &p.old,
+            Some(i) => &p.specs[i],
+        };
+        let on_planned_target = target == planned_target;
+        let zo = before.zippy.as_ref();
         let zn = tgt.zippy.as_ref();
         out.inc(&format!(
             "zippy_pair:{}->{}",
             if zo.is_some() { "defzippy" } else { "none" },
             match (zo, zn) {
                 (_, None) => "none",
+                (Some(o), Some(n)) if o.file == n.file && later => "same-dictionary-file",
                 (Some(o), Some(n)) if o.file == n.file => "same-dictionary-file-edited",
                 (Some(o), Some(n)) if o.entries == n.entries => "same-dictionary",
                 (Some(_), Some(_)) => "other-dictionary",
@@ -1657,7 +2136,7 @@ fn judge_plan(p: &Plan, paths: &Paths, out: &mut CaseOut, desc: &Value, verbose:
                 })
             };
             let mut old_chord_typed = false;
-            for (slots, surely_enabled) in &p.cinfo.chord_bursts {
+            for (slots, surely_enabled) in &ep.cinfo.chord_bursts {
                 if let Some(o) = zo {
                     if *surely_enabled && chord_in(o, slots) {
                         old_chord_typed = true;
@@ -1667,54 +2146,53 @@ fn judge_plan(p: &Plan, paths: &Paths, out: &mut CaseOut, desc: &Value, verbose:
             if old_chord_typed {
                 out.inc(if zn.is_none() { "old_chord_typed_after_reload_into_file_without_defzippy" } else { "old_chord_typed_after_reload_into_file_with_other_defzippy" });
             }
-            if !p.cinfo.chord_bursts.is_empty() && zo.is_none() && zn.is_some() {
+            if !ep.cinfo.chord_bursts.is_empty() && zo.is_none() && zn.is_some() {
                 out.inc("new_chord_typed_after_reload_from_file_without_defzippy");
             }
-            out.count("continuation:chords_pressed_together", p.cinfo.chord_bursts.len() as u64);
-            out.count("continuation:other_keys_pressed_together", p.cinfo.other_bursts);
-            out.count("continuation:leader_plus_sequence", p.cinfo.seq_probes);
-            out.count("continuation:sequence_typed_with_lsft_held", p.cinfo.seq_mod_probes);
-            out.count("continuation:two_accelerated_movement_keys_staggered", p.cinfo.accel_holds);
-            out.count("continuation:dynamic_macro_record_and_replay", p.cinfo.dm_probes);
-            out.count("continuation:virtual_key_operated_by_name", p.cinfo.fk_ops);
-            out.count("continuation:mouse_movement_keys_held", p.cinfo.mouse_holds);
-            if p.cinfo.seq_probes > 0 && p.old.seqs != tgt.seqs {
+            out.count("continuation:chords_pressed_together", ep.cinfo.chord_bursts.len() as u64);
+            out.count("continuation:other_keys_pressed_together", ep.cinfo.other_bursts);
+            out.count("continuation:leader_plus_sequence", ep.cinfo.seq_probes);
+            out.count("continuation:sequence_typed_with_lsft_held", ep.cinfo.seq_mod_probes);
+            out.count("continuation:two_accelerated_movement_keys_staggered", ep.cinfo.accel_holds);
+            out.count("continuation:dynamic_macro_record_and_replay", ep.cinfo.dm_probes);
+            out.count("continuation:virtual_key_operated_by_name", ep.cinfo.fk_ops);
+            out.count("continuation:mouse_movement_keys_held", ep.cinfo.mouse_holds);
+            if ep.cinfo.seq_probes > 0 && before.seqs != tgt.seqs {
                 out.inc("sequence_typed_after_reload_that_changed_the_sequence_table");
             }
-            if p.cinfo.fk_ops > 0 && p.old.vkeys != tgt.vkeys {
+            if ep.cinfo.fk_ops > 0 && before.vkeys != tgt.vkeys {
                 out.inc("virtual_key_operated_after_reload_that_changed_the_virtual_keys");
             }
         }
-        out.inc(&format!("sequences_pair:{}->{}", if p.old.seqs.is_empty() { "none" } else { "defseq" }, if tgt.seqs.is_empty() { "none" } else if tgt.seqs == p.old.seqs { "same" } else { "defseq" }));
-        if p.old.vkeys.iter().map(|v| &v.0).collect::<Vec<_>>() != tgt.vkeys.iter().map(|v| &v.0).collect::<Vec<_>>() {
+        out.inc(&format!("sequences_pair:{}->{}", if before.seqs.is_empty() { "none" } else { "defseq" }, if tgt.seqs.is_empty() { "none" } else if tgt.seqs == before.seqs { "same" } else { "defseq" }));
+        if before.vkeys.iter().map(|v| &v.0).collect::<Vec<_>>() != tgt.vkeys.iter().map(|v| &v.0).collect::<Vec<_>>() {
             out.inc("reload_changes_virtual_key_order");
         }
         for o in VARIED_OPTS {
-            if p.old.opt(o) != tgt.opt(o) {
+            if before.opt(o) != tgt.opt(o) {
                 out.inc(&format!("reload_changes_option:{o}"));
             }
         }
-        let _ = &p.meta;
     }
     if let Some(d) = first_diff(&ra, &rf) {
         out.violate(
-            if a.stale_override_state { "differs-from-fresh-instance:stale-override-state" } else { "differs-from-fresh-instance" },
+            sg(if eo.stale_override_state { "differs-from-fresh-instance:stale-override-state" } else { "differs-from-fresh-instance" }),
             format!("from the idle point after the reload (tick {t_idle}) the outputs differ from a freshly started instance of the new file: {d}"),
-            witness(json!({"reloaded_relative_to_idle_point": shorts(&ra), "whole_trace": shorts(&a.trace), "notifications": notes_json(&a.notes)}), json!({"fresh_instance": shorts(&rf)})),
+            witness(json!({"episode": ei, "reloaded_relative_to_idle_point": shorts(&ra), "whole_trace": whole(&a.trace), "notifications": notes_json(&a.notes)}), json!({"fresh_instance": shorts(&rf)})),
         );
     } else {
-        let na = rel_notes(&a.notes, t_idle);
-        let nf = rel_notes(&f.1, f.2);
+        let na = rel_notes(&a.notes, t_idle, eo.t_end);
+        let nf = rel_notes(&f.1, f.2, u64::MAX);
         if na != nf {
             out.violate(
-                "notifications-differ-from-fresh-instance",
+                sg("notifications-differ-from-fresh-instance"),
                 "from the idle point after the reload the layer notifications differ from a freshly started instance of the new file",
-                witness(json!({"reloaded": notes_json(&na)}), json!({"fresh": notes_json(&nf)})),
+                witness(json!({"episode": ei, "reloaded": notes_json(&na)}), json!({"fresh": notes_json(&nf)})),
             );
         }
         out.count("continuation_notifications_compared", nf.len() as u64);
     }
-    Ok(())
+    Ok(Some(target))
 }
 
 impl Check for C15Check {
@@ -1722,7 +2200,7 @@ impl Check for C15Check {
         "C15"
     }
     fn n_cases(&self, ctx: &Ctx) -> u64 {
-        ctx.tier.sel(2_400, 40_000)
+        n_classic(ctx) + n_sessions(ctx)
     }
     fn describe(&self, ctx: &Ctx, idx: u64) -> Value {
         let p = make_plan(ctx, idx);
@@ -1734,13 +2212,17 @@ impl Check for C15Check {
         out
     }
     fn rule(&self) -> String {
-        "case = (pre-state scenario, reload request kind, outcome) taken systematically from the index: 16 scenarios (idle, key held, pending tap-hold, active one-shot, running macro, held mouse button, held mwheel, held movemouse, caps-word, pending hold-for-duration, layer held, layer switched, unmod key held > 1 s (the 1000-idle-tick fallback), plain key held > 1 s, two keys held, random typing) x 5 request kinds (lrld, lrld-next, lrld-prev, lrld-num, lrld-file) x {valid new file, broken new file} x 6 fault kinds (syntax error, semantic error, missing file, directory, non-UTF-8, valid text naming a malformed zippychord dictionary), over 1-3 real files; every fifth case taps a second request back-to-back. Old and new configurations are random over plain keys, tap-hold, one-shot, macro, mouse button / wheel / movement (plain and accelerated), caps-word, hold-for-duration, layers, chords, multi, tap-dance, unmod, fork, switch with key-timing, overrides. Everything that a reload has to replace OUTSIDE the layout is varied independently between the old configuration and every new file: zippychord (old file with defzippy -> new without, new with another dictionary, new naming the same dictionary file whose content was edited, old without -> new with; dictionaries are real files next to the configuration, contain the chords of the case expressed in the letters the reloaded file types, follow-up chords and own chords; deadline / idle-reactivate-time / smart-space options vary), defseq tables with a leader key (sldr or (sequence t mode)) in old-only / new-only / both (a third of them with sequence-always-on, whose time-out and input mode are the Kanata-level fields), the defvirtualkeys list (2-4 keys, random order = random index behind each name, random actions), dynamic-macro record / play keys (new files only) and the defcfg options sequence-timeout, sequence-input-mode, sequence-backtrack-modcancel, sequence-always-on, movemouse-smooth-diagonals, movemouse-inherit-accel-state, dynamic-macro-max-presses, dynamic-macro-replay-delay-behaviour, override-release-on-activation, concurrent-tap-hold, rapid-event-delay. After the request(s) the held keys are released with random gaps, the run settles, then a continuation of 2-5 pieces is typed: random typing, the chords of the case pressed together (half of the cases start with one, so zippychord is surely enabled), leader + key sequence (some defined as (lsft k1 k2) and typed with lsft held, some broken off), two accelerated movement keys pressed one after the other, record / stop / replay of a dynamic macro, virtual keys pressed / tapped / toggled by name as the TCP server does, movement keys held together, random keys pressed together. Failed reloads are compared, output by output and tick by tick, with a twin run whose reload keys are inert (the dictionary file on disk changes in both); successful ones with a fresh Kanata::new of the new file from the idle point on, plus the deferral / notification / first-layer / nothing-pressed oracles. Non-trivial = case in which the request was made on an accepted old configuration; distinct = (outcome, scenario, request kinds, fault kind, number of files, number of reloads applied).".into()
+        "case = (pre-state scenario, reload request kind, outcome) taken systematically from the index: 16 scenarios (idle, key held, pending tap-hold, active one-shot, running macro, held mouse button, held mwheel, held movemouse, caps-word, pending hold-for-duration, layer held, layer switched, unmod key held > 1 s (the 1000-idle-tick fallback), plain key held > 1 s, two keys held, random typing) x 5 request kinds (lrld, lrld-next, lrld-prev, lrld-num, lrld-file) x {valid new file, broken new file} x 6 fault kinds (syntax error, semantic error, missing file, directory, non-UTF-8, valid text naming a malformed zippychord dictionary), over 1-3 real files; every fifth case taps a second request back-to-back. Old and new configurations are random over plain keys, tap-hold, one-shot, macro, mouse button / wheel / movement (plain and accelerated), caps-word, hold-for-duration, layers, chords, multi, tap-dance, unmod, fork, switch with key-timing, overrides. Everything that a reload has to replace OUTSIDE the layout is varied independently between the old configuration and every new file: zippychord (old file with defzippy -> new without, new with another dictionary, new naming the same dictionary file whose content was edited, old without -> new with; dictionaries are real files next to the configuration, contain the chords of the case expressed in the letters the reloaded file types, follow-up chords and own chords; deadline / idle-reactivate-time / smart-space options vary), defseq tables with a leader key (sldr or (sequence t mode)) in old-only / new-only / both (a third of them with sequence-always-on, whose time-out and input mode are the Kanata-level fields), the defvirtualkeys list (2-4 keys, random order = random index behind each name, random actions), dynamic-macro record / play keys (new files only) and the defcfg options sequence-timeout, sequence-input-mode, sequence-backtrack-modcancel, sequence-always-on, movemouse-smooth-diagonals, movemouse-inherit-accel-state, dynamic-macro-max-presses, dynamic-macro-replay-delay-behaviour, override-release-on-activation, concurrent-tap-hold, rapid-event-delay. After the request(s) the held keys are released with random gaps, the run settles, then a continuation of 2-5 pieces is typed: random typing, the chords of the case pressed together (half of the cases start with one, so zippychord is surely enabled), leader + key sequence (some defined as (lsft k1 k2) and typed with lsft held, some broken off), two accelerated movement keys pressed one after the other, record / stop / replay of a dynamic macro, virtual keys pressed / tapped / toggled by name as the TCP server does, movement keys held together, random keys pressed together. Failed reloads are compared, output by output and tick by tick, with a twin run whose reload keys are inert (the dictionary file on disk changes in both); successful ones with a fresh Kanata::new of the new file from the idle point on, plus the deferral / notification / first-layer / nothing-pressed oracles. SESSIONS (the indices above the single-episode cases; 640 quick / 9600 thorough): 2-3 reload episodes on one running instance, all files valid. The first episode is one of the 16 scenarios x 5 request kinds (one request; in 2/5 the reload key itself is held 1050-1450 ticks, so that the held custom action defers the reload until the one-idle-second fallback applies it, in a third of those another key is tapped during the hold; in 1/4 whatever the scenario holds is held 1100 / 1400 ticks after the request, with a key tapped in the middle of that wait when the scenario surely defers the reload). Its continuation is the typing before the next request: nothing, plain letters only (taps and overlapping holds of keys that type a plain letter in the file just installed, i.e. nothing kanata has to wait for), or the mixed continuation described above. Every later episode makes its pre-state on the file the previous one installed (idle, one or two plain-letter keys held, the lsft key held, random typing cut off anywhere), taps a random request kind (a third with the reload key held for more than a second), waits (a fifth for 1100 / 1400 ticks, possibly with a key tapped in the middle), releases what is held with random gaps, settles, and types its own continuation; the last one types the mixed continuation. Every episode is judged on its own: exactly one ConfigFileReload naming the file the request selects relative to the file active by then, not applied with an OS key down unless more than 1000 iterations passed since the last input / output, notification pair, first layer, only releases until the idle point, everything up at the idle point, continuation identical to a fresh instance of the file that episode installed. KEY-EVENT DELIVERY is a dimension of every case: a third of the single-episode cases and three quarters of the sessions deliver every key event as a loop iteration of its own in the loop's order (can_block_update_idle_waiting, handle_input_event, handle_time_ticks), the others queue key events between two iterations. Non-trivial = case in which the request was made on an accepted old configuration; distinct = (outcome, scenario, request kinds, fault kind, number of files, number of reloads applied), for sessions (per episode: scenario, request kind, reload key held > 1 s; kind of typing between).".into()
     }
     fn assumptions(&self) -> Vec<String> {
         vec![
-            "time is driven through the kanata_verif hooks: one virtual ms = can_block_update_idle_waiting(1) + rewind last_tick by 1.3 ms + the real handle_time_ticks; a case in which handle_time_ticks reports anything but 1 ms is repeated (inconclusive after 5 attempts)".into(),
-            "'no output key is down' is judged on the OS model at the end of the tick that sent ConfigFileReload; 'one idle second' as more than 1000 ticks since the last input event or output".into(),
-            "the idle point after a reload is: request decided, is_idle, no pending on-idle action, OS model all-up, 40 silent ticks; the continuation contains no further reload requests".into(),
+            "time is driven through the kanata_verif hooks: one virtual ms = one loop iteration = can_block_update_idle_waiting(1) + (in loop-order delivery: handle_input_event of the key event this iteration receives) + rewind last_tick by 1.3 ms + the real handle_time_ticks; a case in which handle_time_ticks reports anything but 1 ms is repeated (inconclusive after 5 attempts)".into(),
+            "loop-order delivery models every key event as one iteration that accounts for exactly 1 ms (the blocking branch of the loop rewinds last_tick by 1 ms after recv; the polling branch has slept 1 ms); the driver iterates every millisecond whether or not kanata would block. Virtual keys operated by name (TCP server thread) are always queued between two iterations".into(),
+            "'no output key is down' is judged on the OS model at the end of the iteration that sent ConfigFileReload; 'one idle second' as more than 1000 ms between the last input event (the start of the iteration that received it / the point at which it was queued) or output (the start of the iteration that produced it) and the start of the applying iteration, i.e. at least 1000 whole iterations without input or output in between (the previous version of this check stamped an output with the end of its iteration, which made a reload applied exactly 1000 quiet iterations after an output - what the unchanged tree does when a key typed during the idle second produces its last output one iteration after its last input - a boundary false alarm); an application in the very iteration that receives a key event has idle time 0".into(),
+            "the idle point after a reload is: request decided, is_idle, no pending on-idle action, OS model all-up, 40 silent ticks; a continuation contains no reload requests, the next request of a session comes after it".into(),
+            "sessions: one request per episode (which of two back-to-back requests wins is not decided by the statement and the later episodes must know the active file); all files valid and unchanged after the first request; no dynamic-macro keys (a macro recorded under one file would be replayed under the next; recorded macros are kept across reloads on purpose); the state the typing between two requests leaves behind (switched layer, caps-word, ...) is part of the next episode's pre-state, which is arbitrary anyway".into(),
+            "a key that is tapped while a request is (expected to be) pending but is in fact typed after the reload was applied (the reload was not deferred because no OS key was down, e.g. an override had released it) was typed on the new file: that episode's output-after-reload and fresh-instance comparisons are skipped (counter episodes_with_key_typed_after_the_application:*), everything else is judged".into(),
+            "kanata's own idle counter (pub field ticks_since_idle) is read right after an application only to count which reloads went through the one-idle-second fallback (floors); no oracle uses it".into(),
             "lrld-num is only generated with a number that names an existing file (the guide does not say what an out-of-range number does)".into(),
             "recorded dynamic macros and clipboard slots are kept across reloads on purpose and are not exercised".into(),
             "what the continuation reaches of a feature that differs between old and new file is reported by the evidence counters (zippy_pair:*, old_chord_typed_after_reload_*, sequence_typed_after_reload_*, virtual_key_operated_after_reload_*, reload_changes_option:*); chords, sequences and dictionaries of the old configuration are written in the letters the reloaded file types, so a table that survives the reload shows in the comparison with the fresh instance".into(),
@@ -1766,6 +2248,27 @@ impl Check for C15Check {
             ("deferral_51_600", 10),
             ("applied_by_1000_tick_fallback", 1),
             ("back_to_back_requests", 30),
+            // key-event delivery, sessions, the ways a reload gets applied
+            ("cases_with_key_events_in_loop_order", 600),
+            ("cases_with_key_events_queued_between_ticks", 600),
+            ("sessions", 400),
+            ("session_episodes_planned:2", 100),
+            ("session_episodes_planned:3", 100),
+            ("session_later_episodes", 500),
+            ("session_later_episodes_reached_idle_point", 450),
+            ("session_later_continuations_with_output", 300),
+            ("session_later_requests_with_output_key_down", 200),
+            ("session_later_reloads_deferred_while_keys_held", 250),
+            ("session_later_reloads_applied_by_one_idle_second_fallback", 15),
+            ("session_typing_before_later_request:none", 60),
+            ("session_typing_before_later_request:plain-keys-only", 120),
+            ("session_typing_before_later_request:mixed", 120),
+            ("reloads_applied_by_one_idle_second_fallback", 60),
+            ("requests_with_reload_key_held_over_1s", 200),
+            ("requests_with_key_typed_while_pending", 80),
+            ("fallback_reloads_with_key_typed_during_the_idle_second", 2),
+            ("session_later_requests_after_fallback_reload_and_plain_typing", 15),
+            ("session_later_requests_with_output_key_down_after_fallback_reload_and_plain_typing_in_loop_order", 5),
             ("request:lrld-next", 50),
             ("request:lrld-prev", 50),
             ("request:lrld-num", 50),
